@@ -804,7 +804,7 @@ Fixpoint vtruth (v : val) : bool :=
   match v with
   | VNone => false
   | VBool b => b
-  | VLeaf kind _ => negb (Nat.eqb kind 1)
+  | VLeaf kind _ => negb (Nat.eqb kind 1 || Nat.eqb kind 5)    (* F(k) leaves and the variable y are falsy *)
   | VItem i _ => negb (Nat.eqb i 1)
   | VOp (OSeq _) args => match args with [] => false | _ => true end
   | VOp OGetSlice args => match args with a :: _ => vtruth a | [] => true end
